@@ -31,7 +31,10 @@ Proof. reflexivity. Qed.
 Lemma write_classes_are_known : forallb (fun w => String.eqb (w_class w) "shared" || String.eqb (w_class w) "own-copy") go_field_writes = true.
 Proof. reflexivity. Qed.
 
-Lemma no_mutable_package_state : forallb (fun v => match v with (_, _, c) => String.eqb c "fixed" end) go_package_vars = true.
+(* every package-level variable is either a basic literal or the result of reflect.TypeOf / errors.New / regexp.MustCompile / fmt.Errorf
+   ("fixed"), or a table that no function body assigns to, increments, takes the address of, ranges into or calls a writing method on
+   ("unwritten"); variables of sync / atomic / channel types are never accepted *)
+Lemma no_mutable_package_state : forallb (fun v => match v with (_, _, c) => String.eqb c "fixed" || String.eqb c "unwritten" end) go_package_vars = true.
 Proof. reflexivity. Qed.
 
 (* Calls that can write through their target (append, copy, delete, reflect.Append/AppendSlice/Copy, sort.*, and methods named
